@@ -52,6 +52,8 @@ def run(rep, tier):
     rep.rule("R4.3", "IMC matrix block = -(<S_i S_j> - <S_i><S_j>^T) and the mirrored block is its transpose")
     rep.rule("R4.4", "every accumulator updated in MergeWorker/DoCorrelations (frame count, average volume, averaged histograms and "
                      "forces, correlation matrices) is reset in ClearAverages")
+    rep.rule("R4.10", "per-group output of WriteIMCData / WriteIMCBlock: every running index used inside the loop over a group's interactions (the 1-based range start written "
+                      "to <group>.idx, the row offset n into dS) is (re)initialised inside the loop over the groups, so each group's ranges start at 1 and address its own matrix")
     rep.rule("R4.5", "block output: WriteDist, WriteIMCData, WriteIMCBlock precede ClearAverages, all under nframes % block_length == 0; "
                      "per frame, each worker histogram is cleared before it is filled")
     rep.rule("R4.6", "values are binned to the nearest bin centre: index = floor((v-min)/step + 1/2) (HistogramNew::Process)")
@@ -306,6 +308,45 @@ def run(rep, tier):
         why7 = "its Generate calls pass %s as exclusion flag (required !include_intra_ in the same-type and in the cross-type branch)" % [str(e["args"][-1]) for e in gens]
     rep.check(ok7, "R4.7", "exclusion-flag", "pairs are generated with do_exclusions = !include_intra_ in both branches", "Imc::Worker::DoNonbonded: " + why7,
               dn.loc(bad7[0]["node"]) if ok7 is False and len(hist) == 1 and bad7 else dn.loc(), sample=True)
+
+    # ---------------------------------------------------------------- R4.10
+    n_run = 0
+    C_ = "votca::csg::"
+    for fn_ in ("Imc::WriteIMCData", "Imc::WriteIMCBlock"):
+        wf = F.one(C_ + fn_) if F.find(C_ + fn_) else None
+        if wf is None:
+            continue
+        rep.analysed(wf)
+        loops_ = [n for n in wf.walk() if n.get("k") in ("rangefor", "for", "while")]
+        for inner in loops_:
+            anc_ = list(wf.ancestors(inner))
+            outer = [a for a in anc_ if a.get("k") in ("rangefor", "for", "while")]
+            if not outer or not (inner.get("k") == "rangefor" and "interactions_" in show(inner.get("range") or {})):
+                continue
+            top = max(outer, key=lambda a_: len(list(walk(a_))))          # the outermost enclosing loop: the loop over the groups
+            inner_ids = {x["id"] for x in walk(inner) if "id" in x}
+            top_ids = {x["id"] for x in walk(top) if "id" in x}
+            # running indices: locals declared outside the inner loop that the inner loop both reads and updates (x = .., x += ..)
+            upd = {}
+            for x in walk(inner.get("body") or inner):
+                if x.get("k") == "assign" and unwrap(x["lhs"]).get("k") == "ref" and unwrap(x["lhs"]).get("decl") is not None:
+                    upd.setdefault(unwrap(x["lhs"])["decl"], x)
+            for did, site in sorted(upd.items()):
+                d_ = wf.decls.get(did) or {}
+                dn = [x for x in wf.walk() if x.get("k") == "decl" and did in [y if isinstance(y, int) else y.get("decl") for y in (x.get("decls") or [])]]
+                if not dn or dn[0]["id"] in inner_ids:
+                    continue               # declared inside the inner loop: not a running index
+                decl_in_group_loop = dn[0]["id"] in top_ids
+                reinit = [x for x in walk(top) if x.get("k") == "assign" and x.get("op") == "=" and unwrap(x["lhs"]).get("decl") == did and x["id"] not in inner_ids
+                          and unwrap(x["rhs"]).get("k") in ("int", "lit", "literal", "intlit", "num") ]
+                reinit += [x for x in walk(top) if x.get("k") == "assign" and x.get("op") == "=" and unwrap(x["lhs"]).get("decl") == did and x["id"] not in inner_ids and re.match(r"^-?\d+$", show(x["rhs"]))]
+                n_run += 1
+                rep.check(decl_in_group_loop or bool(reinit), "R4.10", "running-index|%s|%s" % (fn_.split("::")[-1], d_.get("name", did)),
+                          "%s restarts for every group" % d_.get("name", did),
+                          "%s: the running index '%s' is updated inside the loop over a group's interactions but neither declared nor reset inside the loop over the groups: for the second and "
+                          "later groups it continues from the previous group, so the ranges in <group>.idx (or the rows used) no longer address that group's own matrix" % (C_ + fn_, d_.get("name", did)),
+                          wf.loc(site), sample=True)
+    rep.floor("R4.10", n_run, 2, "running indices in the per-group output loops (begin, n)")
 
     # ---------------------------------------------------------------- R4.6
     proc = F.one("votca::tools::HistogramNew::Process")
